@@ -890,4 +890,72 @@ theorem k_ean13Encode_eq (s : List Nat) (hs : ∀ b ∈ s, b < 256) :
 example : Gen.K03w.ean13Encode LG (bytes (bytesOf "590123412345")) = encRes (ean13Modules refTables (bytesOf "590123412345")) :=
   k_ean13Encode_eq _ (by decide)
 
+/-! ## UPC-E -/
+
+theorem natCast_beq (a b : Nat) : (((a : Int) == (b : Int)) : Bool) = (a == b) := by
+  by_cases h : a = b
+  · subst h; simp
+  · have : ¬ (a : Int) = (b : Int) := by omega
+    rw [(beq_eq_false_iff_ne).mpr this, (beq_eq_false_iff_ne).mpr h]
+
+when_kernel Gzx.Gen.K03w.convertUPCEtoUPCA in
+/-- `convertUPCEtoUPCA(upce)` for EVERY byte string: the model's expansion, or the slice panic of `upce[1:7]` when
+    the string is shorter than 7 -/
+theorem k_convertUPCEtoUPCA_eq (u : List Nat) :
+    Gen.K03w.convertUPCEtoUPCA (bytes u) =
+      match CheckDigit.convertUPCEtoUPCA u with
+      | .ok a => .ok (bytes a)
+      | .error _ => .error (.panic "slice bounds out of range") := by
+  match u with
+  | [] | [_] | [_, _] | [_, _, _] | [_, _, _, _] | [_, _, _, _, _] | [_, _, _, _, _, _] =>
+    unfold Gen.K03w.convertUPCEtoUPCA CheckDigit.convertUPCEtoUPCA
+    simp [bytes, slice]
+  | n :: a :: b :: c :: d :: e :: l :: rest =>
+    have hs : slice (bytes (n :: a :: b :: c :: d :: e :: l :: rest)) 1 7 = .ok (bytes [a, b, c, d, e, l]) := by
+      simp [slice, bytes]; omega
+    have h0 : idx (bytes (n :: a :: b :: c :: d :: e :: l :: rest)) 0 = .ok (n : Int) := by simp [idx, bytes]
+    have h5 : idx (bytes [a, b, c, d, e, l]) 5 = .ok (l : Int) := by simp [idx, bytes]
+    have h4 : idx (bytes [a, b, c, d, e, l]) 4 = .ok (e : Int) := by simp [idx, bytes]
+    have s02 : slice (bytes [a, b, c, d, e, l]) 0 2 = .ok (bytes [a, b]) := by simp [slice, bytes]
+    have s25 : slice (bytes [a, b, c, d, e, l]) 2 5 = .ok (bytes [c, d, e]) := by simp [slice, bytes]
+    have s03 : slice (bytes [a, b, c, d, e, l]) 0 3 = .ok (bytes [a, b, c]) := by simp [slice, bytes]
+    have s35 : slice (bytes [a, b, c, d, e, l]) 3 5 = .ok (bytes [d, e]) := by simp [slice, bytes]
+    have s04 : slice (bytes [a, b, c, d, e, l]) 0 4 = .ok (bytes [a, b, c, d]) := by simp [slice, bytes]
+    have s05 : slice (bytes [a, b, c, d, e, l]) 0 5 = .ok (bytes [a, b, c, d, e]) := by simp [slice, bytes]
+    have c48 : (((l : Int) == 48) : Bool) = (l == 48) := natCast_beq l 48
+    have c49 : (((l : Int) == 49) : Bool) = (l == 49) := natCast_beq l 49
+    have c50 : (((l : Int) == 50) : Bool) = (l == 50) := natCast_beq l 50
+    have c51 : (((l : Int) == 51) : Bool) = (l == 51) := natCast_beq l 51
+    have c52 : (((l : Int) == 52) : Bool) = (l == 52) := natCast_beq l 52
+    simp only [Gen.K03w.convertUPCEtoUPCA, hs, h0, h5, h4, s02, s25, s03, s35, s04, s05, tryR_ok, c48, c49, c50, c51, c52,
+      CheckDigit.convertUPCEtoUPCA]
+    cases rest with
+    | nil =>
+      have hl : ¬ ((len (bytes [n, a, b, c, d, e, l]) : Int) ≥ 8) := by simp [len, bytes]
+      simp only [hl, decide_false, Bool.false_eq_true, if_false]
+      by_cases k1 : l = 48 ∨ l = 49 ∨ l = 50
+      · rcases k1 with k | k | k <;> subst k <;> simp [bytes]
+      · by_cases k2 : l = 51
+        · subst k2; simp [bytes]
+        · by_cases k3 : l = 52
+          · subst k3; simp [bytes]
+          · have n48 : l ≠ 48 := fun h => k1 (Or.inl h)
+            have n49 : l ≠ 49 := fun h => k1 (Or.inr (Or.inl h))
+            have n50 : l ≠ 50 := fun h => k1 (Or.inr (Or.inr h))
+            simp [bytes, n48, n49, n50, k2, k3]
+    | cons r rs =>
+      have hl : ((len (bytes (n :: a :: b :: c :: d :: e :: l :: r :: rs)) : Int) ≥ 8) := by simp [len, bytes]; omega
+      have h7 : idx (bytes (n :: a :: b :: c :: d :: e :: l :: r :: rs)) 7 = .ok (r : Int) := by simp [idx, bytes]
+      simp only [hl, decide_true, if_true, h7, tryR_ok]
+      by_cases k1 : l = 48 ∨ l = 49 ∨ l = 50
+      · rcases k1 with k | k | k <;> subst k <;> simp [bytes]
+      · by_cases k2 : l = 51
+        · subst k2; simp [bytes]
+        · by_cases k3 : l = 52
+          · subst k3; simp [bytes]
+          · have n48 : l ≠ 48 := fun h => k1 (Or.inl h)
+            have n49 : l ≠ 49 := fun h => k1 (Or.inr (Or.inl h))
+            have n50 : l ≠ 50 := fun h => k1 (Or.inr (Or.inr h))
+            simp [bytes, n48, n49, n50, k2, k3]
+
 end Gzx.Obligations.K03w
